@@ -107,3 +107,60 @@ package schema
 //@   ensures result == rb_lt(iface(rangeBdry), first, second)
 //@ func (LbSlice).GreaterThan
 //@   ensures result == rb_gt(iface(rangeBdry), first, second)
+
+// ---------------------------------------------------------------------------
+// Schema path validation (C17). Node.Validate computes the relation sch_accepts
+// (/verif/spec/schema_paths.smt2); each node kind's contract is its defining equation:
+// names select children, the token after a list name is its key value, the token after
+// a leaf or leaf-list is validated against the type and must be last, and a path may
+// end on a non-presence container, a list name or a value-less leaf only when incomplete
+// paths are allowed.
+
+//@ func (ValidateCtx).AllowIncompletePaths
+//@   nopanic
+//@   ensures result == ctx_allows(self)
+//@ func (Node).Validate
+//@   params ctx path p
+//@   requires !sameArray(path, p)
+//@   modifies elems(path)
+//@   ensures iff(result == nil, sch_accepts(self, ctx_allows(ctx), backing(p), off(p), off(p)+len(p)))
+//@ func (Type).Validate
+//@   params ctx path s
+//@   ensures iff(result == nil, type_accepts(self, s))
+
+//@ define accTail(c, ctx, p, k) = sch_accepts(c, ctx_allows(ctx), backing(p), off(p)+k, off(p)+len(p))
+
+//@ func (*tree).Validate
+//@   requires t != nil && t.node != nil && !sameArray(path, p)
+//@   modifies elems(path)
+//@   ensures iff(result == nil, len(p) == 0 || (inmap(t.node.children, p[0]) && accTail(t.node.children[p[0]], ctx, p, 1)))
+//@ func (*container).Validate
+//@   requires n != nil && n.node != nil && ctx != nil && !sameArray(path, p)
+//@   modifies elems(path)
+//@   ensures iff(result == nil, ite(len(p) == 0, n.presence || ctx_allows(ctx), inmap(n.node.children, p[0]) && accTail(n.node.children[p[0]], ctx, p, 1)))
+//@ func (*listEntry).Validate
+//@   requires n != nil && n.node != nil && ctx != nil && !sameArray(path, p)
+//@   modifies elems(path)
+//@   ensures iff(result == nil, ite(len(p) == 0, ctx_allows(ctx), inmap(n.node.children, p[0]) && accTail(n.node.children[p[0]], ctx, p, 1)))
+//@ func (*leaf).Validate
+//@   requires n != nil && ctx != nil
+//@   modifies elems(path)
+//@   ensures iff(result == nil, ite(len(p) == 0, is(n.typ, Empty) || ctx_allows(ctx), len(p) == 1 && type_accepts(n.typ, p[0])))
+//@ func (*leafList).Validate
+//@   requires n != nil && ctx != nil
+//@   modifies elems(path)
+//@   ensures iff(result == nil, ite(len(p) == 0, ctx_allows(ctx), len(p) == 1 && type_accepts(n.typ, p[0])))
+//@ func (*choice).Validate
+//@   requires n != nil && n.node != nil && !sameArray(path, p)
+//@   modifies elems(path)
+//@   ensures iff(result == nil, len(p) != 0 && inmap(n.node.children, p[0]) && accTail(n.node.children[p[0]], ctx, p, 1))
+//@ func (*ycase).Validate
+//@   requires n != nil && n.node != nil && !sameArray(path, p)
+//@   modifies elems(path)
+//@   ensures iff(result == nil, len(p) != 0 && inmap(n.node.children, p[0]) && accTail(n.node.children[p[0]], ctx, p, 1))
+//@ func (*list).Validate
+//@   requires n != nil && n.node != nil && ctx != nil && len(n.keys) >= 1 && !sameArray(path, p)
+//@   modifies elems(path)
+//@   ensures iff(result == nil, ite(len(p) == 0, ctx_allows(ctx),
+//@           sch_accepts1(old(n.node.children[n.keys[0]]), ctx_allows(ctx), old(p[0])) &&
+//@           (len(p) == 1 || (old(inmap(n.node.children, p[1])) && accTail(old(n.node.children[p[1]]), ctx, p, 2)))))
